@@ -1,5 +1,6 @@
 import PenneModel.Sem.Int
 import PenneModel.CF.Correct
+import PenneModel.CF.Scoped
 /-
   C01 — compiled programs behave as their source prescribes.  Property theorems (operator level).
 
@@ -24,6 +25,13 @@ theorem control_flow_lowering_correct (ss : Stmts) (hnd : ((compBody ss).2.map (
     (tr : List Ev) (o' : List Bool) (h : execL f ss ss false o = some (tr, o', .next)) :
     ∃ f', run (compBody ss).2 f' (compBody ss).1 o = some (tr, o') :=
   lowering_correct ss hnd f o tr o' h
+
+/-- **accepted bodies never get stuck on a jump** (C04 meets C01; statement in CF/Scoped.lean): together with the theorem
+    above — a body the label scoper accepts either runs for ever or both semantics produce the same trace -/
+theorem scoper_accepted_never_stuck (ss : Stmts) (hb : branchesOKL ss = true) (hacc : NoE400 (Labels.goBody (toSkelL ss false)))
+    (f : Nat) (o : List Bool) (tr : List Ev) (o' : List Bool) (fl : Flow) (h : execL f ss ss false o = some (tr, o', fl)) :
+    fl = .next :=
+  accepted_never_stuck ss hb hacc f o tr o' fl h
 
 /-- the hypotheses are satisfiable by a body with a conditional, a looped block left by a forward `goto`, and a label -/
 example :
